@@ -17,7 +17,22 @@ func NewLocatedErrorWithPath(err interface{}, nodes []ast.Node, path []interface
 
 func newLocatedError(err interface{}, nodes []ast.Node, path []interface{}) *gqlerrors.Error {
 	if err, ok := err.(*gqlerrors.Error); ok {
-		return err
+		// Already located (a field error on its way up through non-null
+		// ancestors), or there is nowhere to locate it.
+		if len(err.Path) > 0 || len(path) == 0 {
+			return err
+		}
+		// A bare *gqlerrors.Error made by the resolver: locate a copy at this
+		// field like any other error (the value may be shared, so it is not
+		// modified).
+		if len(err.Nodes) > 0 {
+			nodes = err.Nodes
+		}
+		origError := err.OriginalError
+		if origError == nil {
+			origError = err
+		}
+		return gqlerrors.NewErrorWithPath(err.Message, nodes, err.Stack, err.Source, err.Positions, path, origError)
 	}
 
 	var origError error
